@@ -11,6 +11,7 @@ import (
 	"verifharness/hx"
 
 	"github.com/iotaledger/hive.go/runtime/options"
+	"github.com/iotaledger/hive.go/runtime/syncutils"
 	"github.com/iotaledger/hive.go/runtime/workerpool"
 )
 
@@ -30,8 +31,73 @@ func (n *gnode) value() int {
 	return n.group.PendingChildrenCounter.Get()
 }
 
+// gsub is a user subscriber of a node's exported counter: an observer of its (old,new) change stream.
+type gsub struct {
+	node   int
+	v0     int // the counter's value when it subscribed
+	active bool
+	unsub  func()
+	mu     sync.Mutex
+	stream [][2]int
+}
+
+func (s *gsub) callback(oldValue, newValue int) {
+	s.mu.Lock()
+	s.stream = append(s.stream, [2]int{oldValue, newValue})
+	s.mu.Unlock()
+}
+
+func (s *gsub) String() string {
+	s.mu.Lock()
+	defer s.mu.Unlock()
+	parts := make([]string, len(s.stream))
+	for i, p := range s.stream {
+		parts[i] = fmt.Sprintf("%d>%d", p[0], p[1])
+	}
+
+	return "[" + strings.Join(parts, " ") + "]"
+}
+
+// ok is the subscriber monitor (Lean: Hive.WPG.streamOk, plus unit steps): the pairs chain up from the value at
+// subscription time, every step is +-1, and the stream ends at cur (checked while the subscriber is active).
+func (s *gsub) ok(cur int) (bool, string) {
+	s.mu.Lock()
+	defer s.mu.Unlock()
+	v := s.v0
+	for i, p := range s.stream {
+		if p[0] != v || (p[1] != p[0]+1 && p[1] != p[0]-1) {
+			return false, fmt.Sprintf("pair %d is %d>%d after value %d", i, p[0], p[1], v)
+		}
+		v = p[1]
+	}
+	if s.active && v != cur {
+		return false, fmt.Sprintf("stream ends at %d but the counter is %d", v, cur)
+	}
+
+	return true, ""
+}
+
+func (n *gnode) counter() *syncutils.Counter {
+	if n.pool != nil {
+		return n.pool.PendingTasksCounter
+	}
+
+	return n.group.PendingChildrenCounter
+}
+
 type gtree struct {
 	nodes []*gnode
+	subs  []*gsub
+}
+
+// checkSubs: every user subscriber has seen exactly the changes of its counter since it subscribed.
+func (t *gtree) checkSubs(r *result, after string) {
+	for k, s := range t.subs {
+		if ok, why := s.ok(t.nodes[s.node].value()); !ok {
+			r.fail("subscriber-stream", fmt.Sprintf("after '%s': subscriber %d of node %d (subscribed at value %d) saw %s: %s", after, k, s.node, s.v0, s, why),
+				map[string]string{"api": "syncutils.Counter.Subscribe", "effect": "subscriber-stream-wrong"})
+		}
+	}
 }
 
 func (t *gtree) values() string {
@@ -113,6 +179,38 @@ func (t *gtree) exec(r *result, op string) string {
 			opts = append(opts, workerpool.WithCancelPendingTasksOnShutdown(false))
 		}
 		t.nodes = append(t.nodes, &gnode{parent: a, pool: t.nodes[a].group.CreatePool(name, opts...)})
+	case "newpoolsub":
+		// a pool created with a user subscriber attached through an option, i.e. BEFORE the group's own subscription
+		if !t.isGroup(a) {
+			return "skip"
+		}
+		sb := &gsub{node: len(t.nodes), active: true}
+		withSub := func(w *workerpool.WorkerPool) { sb.unsub = w.PendingTasksCounter.Subscribe(sb.callback) }
+		t.nodes = append(t.nodes, &gnode{parent: a, pool: t.nodes[a].group.CreatePool(name, workerpool.WithWorkerCount(2), withSub)})
+		t.subs = append(t.subs, sb)
+	case "sub":
+		if a < 0 || a >= len(t.nodes) {
+			return "skip"
+		}
+		sb := &gsub{node: a, active: true, v0: t.nodes[a].value()}
+		sb.unsub = t.nodes[a].counter().Subscribe(sb.callback)
+		t.subs = append(t.subs, sb)
+
+		return fmt.Sprintf("ok %d", len(t.subs)-1)
+	case "unsub":
+		if a < 0 || a >= len(t.subs) || !t.subs[a].active {
+			return "skip"
+		}
+		t.subs[a].unsub()
+		t.subs[a].active = false
+
+		return "ok"
+	case "stream":
+		if a < 0 || a >= len(t.subs) {
+			return "skip"
+		}
+
+		return t.subs[a].String()
 	case "inc":
 		if !t.isPool(a) {
 			return "skip"
@@ -152,6 +250,7 @@ func (t *gtree) exec(r *result, op string) string {
 		return "bad-op"
 	}
 	t.check(r, op)
+	t.checkSubs(r, op)
 
 	return "ok " + t.values()
 }
@@ -186,6 +285,7 @@ func genGroupOps(rng *hx.Rng, n int) []string {
 	ops := []string{"g newgroup -"}
 	kinds := []bool{true} // true = group
 	pend := []int{0}
+	nsubs := 0
 	for len(ops) < n {
 		groups, pools := []int{}, []int{}
 		for i, k := range kinds {
@@ -200,9 +300,22 @@ func genGroupOps(rng *hx.Rng, n int) []string {
 			ops = append(ops, fmt.Sprintf("g newgroup %d", hx.Pick(rng, groups)))
 			kinds, pend = append(kinds, true), append(pend, 0)
 		case x < 20 && len(kinds) < 12 || len(pools) == 0:
-			ops = append(ops, fmt.Sprintf("g newpool %d", hx.Pick(rng, groups)))
+			if rng.Chance(1, 3) {
+				ops = append(ops, fmt.Sprintf("g newpoolsub %d", hx.Pick(rng, groups)))
+				nsubs++
+			} else {
+				ops = append(ops, fmt.Sprintf("g newpool %d", hx.Pick(rng, groups)))
+			}
 			kinds, pend = append(kinds, false), append(pend, 0)
-		case x < 55:
+		case x < 27:
+			// a user subscriber on a pool's PendingTasksCounter or a group's PendingChildrenCounter
+			ops = append(ops, fmt.Sprintf("g sub %d", rng.Intn(len(kinds))))
+			nsubs++
+		case x < 33 && nsubs > 0:
+			ops = append(ops, fmt.Sprintf("g unsub %d", rng.Intn(nsubs))) // may hit an inactive one: both sides skip
+		case x < 36 && nsubs > 0:
+			ops = append(ops, fmt.Sprintf("g stream %d", rng.Intn(nsubs)))
+		case x < 60:
 			q := hx.Pick(rng, pools)
 			ops = append(ops, fmt.Sprintf("g inc %d", q))
 			pend[q]++
@@ -216,6 +329,9 @@ func genGroupOps(rng *hx.Rng, n int) []string {
 			ops = append(ops, fmt.Sprintf("g wait %d", hx.Pick(rng, groups)))
 		}
 	}
+	for k := 0; k < nsubs; k++ {
+		ops = append(ops, fmt.Sprintf("g stream %d", k))
+	}
 
 	return ops
 }
@@ -226,15 +342,56 @@ func groupStress(r *result, seed uint64) {
 	rng := hx.NewRng(seed)
 	root := workerpool.NewGroup("root")
 	var pools []*workerpool.WorkerPool
+	var usubs []*gsub
 	for g := 0; g < 2; g++ {
 		sub := root.CreateGroup(fmt.Sprintf("g%d", g))
 		if rng.Bool() {
 			sub = sub.CreateGroup("deep")
 		}
 		for p := 0; p < 2; p++ {
-			pools = append(pools, sub.CreatePool(fmt.Sprintf("p%d", p), workerpool.WithWorkerCount(rng.Range(1, 3))))
+			opts := []options.Option[workerpool.WorkerPool]{workerpool.WithWorkerCount(rng.Range(1, 3))}
+			if rng.Bool() {
+				// a user subscriber attached through an option, before the group's own subscription
+				sb := &gsub{node: len(pools), active: true}
+				opts = append(opts, func(w *workerpool.WorkerPool) { sb.unsub = w.PendingTasksCounter.Subscribe(sb.callback) })
+				usubs = append(usubs, sb)
+			}
+			pools = append(pools, sub.CreatePool(fmt.Sprintf("p%d", p), opts...))
 		}
 	}
+	// subscription churn on the pools' counters while the tasks run: unsubscribe an old observer, attach a new one
+	churnDone := make(chan struct{})
+	stopChurn := make(chan struct{})
+	crng, _ := rng.Fork()
+	var umu sync.Mutex
+	go func() {
+		defer close(churnDone)
+		for i := 0; ; i++ {
+			select {
+			case <-stopChurn:
+				return
+			default:
+			}
+			umu.Lock()
+			if len(usubs) > 0 && crng.Bool() {
+				old := usubs[crng.Intn(len(usubs))]
+				if old.active {
+					old.unsub()
+					old.active = false
+				}
+			}
+			q := crng.Intn(len(pools))
+			// the value at subscription time is not known exactly under concurrency: taken from the first report
+			sb := &gsub{node: q, active: true, v0: -1}
+			sb.unsub = pools[q].PendingTasksCounter.Subscribe(sb.callback)
+			usubs = append(usubs, sb)
+			umu.Unlock()
+			time.Sleep(200 * time.Microsecond)
+			if i > 200 {
+				return
+			}
+		}
+	}()
 	var submitted, ran atomic.Int64
 	var submit func(depth int, rs *hx.Rng)
 	var mu sync.Mutex
@@ -283,6 +440,23 @@ func groupStress(r *result, seed uint64) {
 		r.fail("group-wait", fmt.Sprintf("root.WaitChildren returned after %d of %d submitted tasks ran", d, s),
 			map[string]string{"api": "workerpool.Group.WaitChildren", "effect": "returned-with-unfinished-tasks"})
 	}
+	close(stopChurn)
+	<-churnDone
+	// every observer that is still attached has seen a gap-free stream ending at zero
+	for k, sb := range usubs {
+		sb.mu.Lock()
+		if sb.v0 < 0 && len(sb.stream) > 0 {
+			sb.v0 = sb.stream[0][0]
+		} else if sb.v0 < 0 {
+			sb.v0 = 0
+		}
+		sb.mu.Unlock()
+		if ok, why := sb.ok(pools[sb.node].PendingTasksCounter.Get()); !ok {
+			r.fail("subscriber-stream", fmt.Sprintf("subscriber %d of pool %d saw %s: %s", k, sb.node, sb, why),
+				map[string]string{"api": "syncutils.Counter.Subscribe", "effect": "subscriber-stream-wrong"})
+		}
+	}
+	r.counts["group-stress-subscribers"] += len(usubs)
 	r.counts["group-stress-tasks"] += int(submitted.Load())
 	if !within(bound, root.Shutdown) {
 		r.fail("termination", "root.Shutdown did not return", map[string]string{"api": "workerpool.Group.Shutdown", "effect": "hang"})
